@@ -356,3 +356,10 @@ Definition apply_xfer (H : N -> option cstate) (x : xfer) : N -> option cstate :
     | None, None => H
     end
   else H.
+
+(* all interleavings of per-goroutine scripts: each element of the result is the head of one
+   thread (every call is one atomic step of the model) *)
+Inductive interleaving {A} : list (list A) -> list A -> Prop :=
+| il_nil : forall ts, Forall (fun t => t = []) ts -> interleaving ts []
+| il_step : forall ts1 a t ts2 l,
+    interleaving (ts1 ++ t :: ts2) l -> interleaving (ts1 ++ (a :: t) :: ts2) (a :: l).
